@@ -464,6 +464,10 @@ Definition mut_cp_plsr_fit : cmd := seq [ Rebind 10 0; Copy 11 1; InplaceOp 10 2
        ("the tensor modifies itself"):  self.weights, self.factors = cp_normalize(self) *)
 Definition sk_cp_normalize_method : cmd := seq [
   Call 20 sk_cp_normalize [0] 18; ListGet 21 20 0; ListGet 22 20 1; ListSet 0 0 21; ListSet 0 1 22 ].
+(* CPTensor.normalize(inplace=False) after fix 9ada0b3: weights, factors = cp_normalize(self); return CPTensor((weights, factors)).
+   (inplace=True is sk_cp_normalize_method followed by `return self`.) *)
+Definition sk_cp_normalize_method_copy : cmd := seq [
+  Call 20 sk_cp_normalize [0] 18; ListGet 21 20 0; ListGet 22 20 1; CPTENSOR 23 21 22 ].
 Definition sk_tucker_normalize : cmd := seq [   (* tucker_tensor = 0 *)
   ListGet 10 0 0; ListGet 11 0 1; ListNew 12 [];
   ListGet 13 11 0; Alloc 14 2; Alloc 10 4; Alloc 15 2; ListAppend 12 15;
@@ -542,6 +546,127 @@ Fixpoint run (c : cmd) (n : nat) (s : state) : state * option nat :=
       end
   | _ => match n with O => (s, None) | S m => (exec c s, Some m) end
   end.
+
+(* ================================================================== caught exceptions: try / except
+   aprefixes c s = the abstract states at all interruption points of c; safe_try = body accepted and handler accepted from
+   every one of them (Proofs/EffectsProofsTry.v).  A program with ONE try statement: pre; try: c except: hd; rest.
+   exec_try ... n = the body raises after n primitive effects (n >= its size: no exception, the handler is skipped). *)
+Fixpoint rep_prefixes (k : nat) (pre : astate -> list astate) (step : astate -> option astate) (s : astate) : list astate :=
+  match k with
+  | O => []
+  | S k' => pre s ++ match step s with Some s1 => rep_prefixes k' pre step s1 | None => [] end
+  end.
+
+Fixpoint aprefixes (c : cmd) (s : astate) : list astate :=
+  match c with
+  | Seq c1 c2 => aprefixes c1 s ++ match aexec c1 s with Some s1 => aprefixes c2 s1 | None => [] end
+  | Repeat k c1 => rep_prefixes k (aprefixes c1) (aexec c1) s
+  | Call x body args ret => map (fun s' => (fst s, snd s')) (aprefixes body (call_env ANull (fst s) args, snd s))
+  | _ => [s]
+  end.
+
+Definition is_some {A} (o : option A) : bool := match o with Some _ => true | None => false end.
+
+Definition safe_try_with (flags : list bool) (c hd : cmd) : bool :=
+  is_some (aexec c (aenv0 flags, [])) && forallb (fun s => is_some (aexec hd s)) (aprefixes c (aenv0 flags, [])).
+Definition safe_try (nargs : nat) (c hd : cmd) : bool := safe_try_with (repeat false nargs) c hd.
+
+Definition exec_try (pre c hd rest : cmd) (n : nat) (s : state) : state :=
+  match run c n (exec pre s) with
+  | (s1, Some _) => exec rest s1
+  | (s1, None) => exec rest (exec hd s1)
+  end.
+Definition safe_tryprog_with (flags : list bool) (pre c hd rest : cmd) : bool :=
+  match aexec pre (aenv0 flags, []) with
+  | None => false
+  | Some s1 =>
+      match aexec c s1 with
+      | None => false
+      | Some s2 =>
+          is_some (aexec rest s2) &&
+          forallb (fun sp => match aexec hd sp with Some s3 => is_some (aexec rest s3) | None => false end) (aprefixes c s1)
+      end
+  end.
+Definition safe_tryprog (nargs : nat) (pre c hd rest : cmd) : bool := safe_tryprog_with (repeat false nargs) pre c hd rest.
+Definition footprint_try (pre c hd rest : cmd) (n : nat) (args : list ref) (h : heap) : list nat :=
+  let h' := snd (exec_try pre c hd rest n (env0 args, h)) in
+  filter (fun o => match nth_error h o, nth_error h' o with
+                   | Some a, Some b => negb (obj_eqb a b)
+                   | _, _ => true end) (List.seq 0 (length h)).
+
+(* Programs with SEVERAL try statements (try / except / finally = TSeq (TTry c hd) (TPlain final); a try inside a loop =
+   trepeat).  The oracle `ns` gives, for each try statement in execution order, the position at which its body raises
+   (past the end of the body: no exception); an exhausted oracle means no more exceptions.
+   tstates = the abstract states possible after the program (None = rejected). *)
+Inductive tcmd := TPlain (c : cmd) | TTry (c hd : cmd) | TSeq (a b : tcmd).
+Fixpoint trepeat (k : nat) (b : tcmd) : tcmd := match k with O => TPlain Skip | S k' => TSeq b (trepeat k' b) end.
+Fixpoint texec (t : tcmd) (ns : list nat) (s : state) : state * list nat :=
+  match t with
+  | TPlain c => (exec c s, ns)
+  | TTry c hd =>
+      match ns with
+      | [] => (exec c s, [])
+      | n :: ns' => match run c n s with (s1, Some _) => (s1, ns') | (s1, None) => (exec hd s1, ns') end
+      end
+  | TSeq a b => let '(s1, ns1) := texec a ns s in texec b ns1 s1
+  end.
+Fixpoint tbind {A B} (l : list A) (f : A -> option (list B)) : option (list B) :=
+  match l with
+  | [] => Some []
+  | a :: t => match f a, tbind t f with Some x, Some y => Some (x ++ y) | _, _ => None end
+  end.
+Definition one_state (o : option astate) : option (list astate) := match o with Some s => Some [s] | None => None end.
+Fixpoint tstates (t : tcmd) (l : list astate) : option (list astate) :=
+  match t with
+  | TPlain c => tbind l (fun s => one_state (aexec c s))
+  | TTry c hd =>
+      tbind l (fun s => match aexec c s with
+                        | None => None
+                        | Some s2 => match tbind (aprefixes c s) (fun sp => one_state (aexec hd sp)) with
+                                     | Some hs => Some (s2 :: hs)
+                                     | None => None
+                                     end
+                        end)
+  | TSeq a b => match tstates a l with Some l1 => tstates b l1 | None => None end
+  end.
+Definition tsafe_with (flags : list bool) (t : tcmd) : bool := is_some (tstates t [(aenv0 flags, [])]).
+Definition tsafe (nargs : nat) (t : tcmd) : bool := tsafe_with (repeat false nargs) t.
+
+(* --- the entry points of the anchored packages that CATCH exceptions and go on (the other handlers re-raise: that is `run`).
+   tryprog = (pre, body, handler, rest) *)
+Definition tryprog := (cmd * cmd * cmd * cmd)%type.
+(* active_set_nnls(Utm=0, UtU=1, x=2): `try: passive_solution = solve(..); support_vec = index_update(support_vec, ..) ...
+   except: x_vec = zeros(..); support_vec = zeros(..); passive_set = ..; active_set = ..` inside the sweep *)
+Definition tp_active_set_nnls : tryprog :=
+  ( seq [ View 10 2 [0; 1]; Alloc 11 2; Alloc 12 2; Alloc 13 2; Alloc 14 2; WriteInto 12 [1%Z]; WriteInto 13 [0%Z] ],
+    seq [ Alloc 15 2; WriteInto 14 [1%Z; 1%Z]; WriteInto 14 [0%Z; 0%Z] ],
+    seq [ Alloc 10 2; Alloc 14 2; Alloc 12 2; Alloc 13 2 ],
+    seq [ Alloc 16 2; Alloc 17 2; Rebind 10 17; Alloc 12 2; Alloc 13 2; Alloc 17 2; Rebind 10 17; Alloc 11 2 ] ).
+(* seeded mutant: the handler resets the warm start in place (x_vec[...] = 0) - x_vec is still a view of the caller's x *)
+Definition tp_active_set_nnls_mut : tryprog :=
+  let '(pre, c, hd, rest) := tp_active_set_nnls in (pre, c, Seq (WriteInto 10 [0%Z; 0%Z]) hd, rest).
+(* vonneumann_entropy(tensor=0): `try: eig_vals = eigh(tensor) except: tensor = (tensor + transpose(tensor)) / 2; eig_vals = eigh(tensor)` *)
+Definition tp_vonneumann_entropy : tryprog :=
+  ( seq [ View 10 0 [0; 1; 2; 3]; Rebind 0 10 ], seq [ Alloc 11 2 ], seq [ View 12 0 [0; 2; 1; 3]; Alloc 13 4; Rebind 0 13; Alloc 11 2 ], seq [ Alloc 14 1 ] ).
+(* matricize(tensor=0, row_modes=1, column_modes=2) / the mode normalisation of tensordot: `try: idx = list(modes) except TypeError: idx = [modes]` *)
+Definition tp_modes_to_list : tryprog :=
+  ( Skip, seq [ ListCopy 10 1 2 ], seq [ ListNew 10 [1] ], seq [ ListCopy 11 2 1; ListNew 12 [10; 11]; Alloc 13 4; View 14 0 [0; 1] ] ).
+(* tensor_train_cross(input_tensor=0, rank=1): `try: factor_new[k-1] = transpose(Q); factor_new[k-1] = reshape(..) except: raise ValueError`
+   (factor_new is a list allocated by the run; the handler re-raises: nothing runs after it) *)
+Definition tp_tt_cross : tryprog :=
+  ( seq [ ListCopy 10 1 4; Alloc 11 2; Alloc 12 2; ListNew 13 [11; 12] ], seq [ Alloc 14 2; View 15 14 [1; 0]; ListSet 13 0 15; View 16 15 [0; 1]; ListSet 13 0 16 ], Skip, Skip ).
+Definition tc_active_set (hd : cmd) : tcmd :=
+  let '(pre, c, _, rest) := tp_active_set_nnls in
+  TSeq (TPlain (seq [ View 10 2 [0; 1]; Alloc 11 2; Alloc 12 2; Alloc 13 2; Alloc 14 2 ]))
+       (TSeq (trepeat 2 (TSeq (TPlain (seq [ WriteInto 12 [1%Z]; WriteInto 13 [0%Z] ])) (TSeq (TTry c hd) (TPlain rest))))
+             (TPlain (Alloc 18 2))).
+Definition tc_active_set_nnls : tcmd := tc_active_set (seq [ Alloc 10 2; Alloc 14 2; Alloc 12 2; Alloc 13 2 ]).
+Definition try_skeletons : list (nat * tryprog) :=
+  [ (3, tp_active_set_nnls); (1, tp_vonneumann_entropy); (3, tp_modes_to_list); (2, tp_tt_cross) ].
+
+(* TTTensor(factors, inplace=..) / TTMatrix(factors, inplace=..) / TRTensor(factors): the constructor validates and stores the SAME list,
+   whatever the (undocumented, unused) flag says: nothing is written; factors = 0 *)
+Definition sk_wrapper_ctor : cmd := seq [ ListGet 10 0 0; ListGet 11 0 1; Alloc 12 1; Alloc 13 1; ListNew 14 [0; 12; 13] ].
 
 (* ================================================================== order-generic skeleton families
    The same skeletons for an arbitrary number of modes N, an arbitrary number of sweeps and arbitrary list
